@@ -57,6 +57,8 @@ def finding_class(units, ans):
         except Exception:
             text, fn = "line %s" % m.group(2), "?"
         return "panic:%s:%s:%s" % (rel, fn, text)
+    if ans.startswith("crash") and "rc=hang" in ans:
+        return None         # (no class: a hang is reported with its input)
     if ans.startswith("crash"):
         if len(units) > 1:
             seen = set()
@@ -286,6 +288,8 @@ def main():
         if c not in ("ok", "err"):
             if a.startswith("panic at="):
                 sig = re.match(r"panic at=\S+", a).group(0)
+            elif c == "crash" and "rc=hang" in a:
+                sig = "hang"
             elif c == "crash":
                 # a dead worker says nothing about the cause: classify every case (the classes differ in their inputs)
                 sig = "crash:" + str(finding_class(u, a))
@@ -297,8 +301,8 @@ def main():
             bad.setdefault(sig, []).append((u, rq, a))
     for sig, cases in bad.items():
         u, rq, a = min(cases, key=lambda x: sum(len(s) for _, s in x[0]))
-        # shrink single-file inputs by deleting lines
-        if len(u) == 1:
+        # shrink single-file inputs by deleting lines (not the ones that hang: every candidate would be waited for)
+        if len(u) == 1 and "rc=hang" not in a:
             name, src = u[0]
             lines = src.split("\n")
             changed = True
